@@ -38,7 +38,7 @@ def gen_tree(r, depth, ctr, pfail=0.35):
     n = Node()
     ctr[0] += 1
     n.sid = ctr[0]
-    n.kind = 'leaf' if depth == 0 else r.choice(['leaf', 'nest', 'chain', 'alt', 'or', 'switch', 'chain', 'nest', 'guard', 'altd'])
+    n.kind = 'leaf' if depth == 0 else r.choice(['leaf', 'nest', 'chain', 'alt', 'or', 'switch', 'chain', 'nest', 'guard', 'altd', 'not'])
     n.kids, n.vals, n.ok = [], [], True
     if n.kind == 'leaf':
         x = r.random()
@@ -50,6 +50,10 @@ def gen_tree(r, depth, ctr, pfail=0.35):
         # Check(sub-spec, ...): refuses by itself (after the sub-spec succeeded) with probability pfail
         n.ok = r.random() > pfail
         n.kids = [gen_tree(r, depth - 1, ctr, pfail * 0.5)]
+        return n
+    if n.kind == 'not':
+        # Not(sub-spec): passes the target on when the sub-spec fails, refuses by itself when it succeeds
+        n.kids = [gen_tree(r, depth - 1, ctr, 0.6)]
         return n
     m = r.randint(1, 3)
     n.kids = [gen_tree(r, depth - 1, ctr, pfail) for _ in range(m)]
@@ -67,6 +71,8 @@ def to_ir(n):
         return ['switch', n.sid, [[to_ir(a), to_ir(b)] for a, b in zip(n.kids, n.vals)]]
     if n.kind == 'guard':
         return ['guard', n.sid, n.ok, to_ir(n.kids[0])]
+    if n.kind == 'not':
+        return ['not', n.sid, to_ir(n.kids[0])]
     return [n.kind, n.sid, [to_ir(k) for k in n.kids]]
 
 
@@ -80,6 +86,8 @@ def ir_coq(ir):
         return '(Switch %s %s)' % (cnat(ir[1]), clist('(%s, %s)' % (ir_coq(a), ir_coq(b)) for a, b in ir[2]))
     if k == 'guard':
         return '(Guard %s %s %s)' % (cnat(ir[1]), cbool(ir[2]), ir_coq(ir[3]))
+    if k == 'not':
+        return '(NotS %s %s)' % (cnat(ir[1]), ir_coq(ir[2]))
     name = {'nest': 'Nest', 'chain': 'Chain', 'alt': 'Alt', 'or': 'OrS', 'altd': 'AltD'}[k]
     return '(%s %s %s)' % (name, cnat(ir[1]), clist(ir_coq(x) for x in ir[2]))
 
@@ -100,6 +108,8 @@ def realise(ir, reg):
         sp = Switch([(realise(a, reg), realise(b, reg)) for a, b in ir[2]])
     elif k == 'guard':
         sp = glom.Check(realise(ir[3], reg), validate=(_accept if ir[2] else _refuse))
+    elif k == 'not':
+        sp = glom.Not(realise(ir[2], reg))
     else:
         subs = [realise(x, reg) for x in ir[2]]
         if k == 'nest':
@@ -153,6 +163,8 @@ def depth_of(ir):
         return 0
     if ir[0] == 'guard':
         return 1 + depth_of(ir[3])
+    if ir[0] == 'not':
+        return 1 + depth_of(ir[2])
     if ir[0] == 'switch':
         return 1 + max(max(depth_of(a), depth_of(b)) for a, b in ir[2])
     return 1 + max([depth_of(x) for x in ir[2]] or [0])
@@ -165,6 +177,8 @@ def has_branch(ir):
         return True
     if ir[0] == 'guard':
         return has_branch(ir[3])
+    if ir[0] == 'not':
+        return has_branch(ir[2])
     return any(has_branch(x) for x in ir[2])
 
 
@@ -565,6 +579,10 @@ def corpus():
         {'kind': 'trace', 'tree': ['guard', 1, False, ['altd', 2, [['leaf', 3, False]]]]},
         {'kind': 'trace', 'tree': ['alt', 1, [['leaf', 2, False], ['chain', 3, [['altd', 4, [['leaf', 5, False]]], ['skip', 6]]]]]},
         {'kind': 'trace', 'tree': ['nest', 1, [['altd', 2, [['chain', 3, [['leaf', 4, True], ['leaf', 5, False]]], ['skip', 6]]], ['guard', 7, False, ['altd', 8, [['skip', 9]]]]]]},
+        # Not: a failed sub-spec is forgiven, a passing one makes the Not itself refuse
+        {'kind': 'trace', 'tree': ['chain', 1, [['not', 2, ['leaf', 3, False]], ['leaf', 4, False]]]},
+        {'kind': 'trace', 'tree': ['alt', 1, [['not', 2, ['leaf', 3, True]], ['leaf', 4, False]]]},
+        {'kind': 'trace', 'tree': ['guard', 1, False, ['not', 2, ['chain', 3, [['leaf', 4, True], ['leaf', 5, False]]]]]},
     ]
     out += [{'kind': 'message', 'i': i} for i in range(N_MESSAGE)]
     return out
